@@ -73,6 +73,21 @@ def run(ctx: core.Ctx):
         if got.shape != V.shape or not np.array_equal(got, V, equal_nan=True):
             i = int(np.flatnonzero(~((got == V) | (np.isnan(got) & np.isnan(V))))[0]) if got.shape == V.shape else -1
             ctx.violation(f"{op}.compute/formula/array", {"op": op, "a": float(A[i]), "b": float(B[i])}, float(V[i]), float(got[i]) if i >= 0 else str(got.shape), note="array call differs from elementwise value")
+        # a second call of the same shape on the same object (reversed operands): neither result may depend on, or alias, the other
+        first = got.copy()
+        again = np.asarray(objs[op].compute(A[::-1].copy(), B[::-1].copy()), dtype=float)
+        ctx.count(1)
+        if not np.array_equal(got, first, equal_nan=True):
+            ctx.violation(f"{op}.compute/result-aliased", {"op": op}, "the first result is unchanged by a later call", "modified", note="an earlier result array was overwritten by a later call of the same shape")
+        elif again.shape != V.shape or not np.array_equal(again, V[::-1], equal_nan=True):
+            ctx.violation(f"{op}.compute/formula/second-array-call", {"op": op}, "table (reversed)", "differs", note="a second array call of the same shape on the same object differs from the elementwise values")
+        # nested array calls, as a three-operand conjunction / disjunction on batched inputs evaluates them: op(op(A, B), C)
+        Cc = A[::-1].copy()
+        nested = np.asarray(objs[op].compute(objs[op].compute(A, B), Cc), dtype=float)
+        each = np.array([float(objs[op].compute(float(objs[op].compute(float(x), float(y))), float(z))) for x, y, z in zip(A, B, Cc)])
+        ctx.count(1)
+        if nested.shape != each.shape or not np.allclose(nested, each, rtol=0, atol=1e-15, equal_nan=True):
+            ctx.violation(f"{op}.compute/nested-array-call", {"op": op}, "elementwise values of op(op(a,b),c)", "differs", note="op(op(A,B),C) on arrays differs from the element-by-element evaluation")
         # 2-D broadcast: column against row
         n = G + 1
         col = np.array(sorted(set(A)))[:, None]
